@@ -59,9 +59,9 @@ def source_tree(draw):
     }
 
 
-KEYS = ["src.len", "src.cnt", "src.flag", "src.cmp", "src.name", "src.arr", "src.sub.deep", "src.ref", "src.late", "src.mat", "src.words"]
+KEYS = ["src.len", "src.cnt", "src.flag", "src.cmp", "src.name", "src.arr", "src.sub.deep", "src.ref", "src.late", "src.mat", "src.words", "src.par"]
 TYPE = {"src.len": "float", "src.cnt": "int", "src.flag": "bool", "src.cmp": "bool", "src.name": "str", "src.arr": "float[3]",
-        "src.sub.deep": "int", "src.ref": "float", "src.late": "float", "src.mat": "float[2,3]", "src.words": "str[3]"}
+        "src.sub.deep": "int", "src.ref": "float", "src.late": "float", "src.mat": "float[2,3]", "src.words": "str[3]", "src.par": "int"}
 WORDLIST = ["alpha", "b c", "gamma"]
 MAT = [[1.0, 2.0, 3.0], [4.0, 5.0, 6.0]]
 
@@ -74,7 +74,7 @@ def cmp_value(t):
 @st.composite
 def operation(draw, where):
     kinds = ["inject_def"] * 5 + ["inject_mod"] * 2 + ["import_children", "import_children", "import_single", "import_all",
-                                                       "import_host", "import_host", "import_over"]
+                                                       "import_host", "import_host", "import_over", "import_mod_ref"]
     if where != "remote":
         kinds += ["mod_src"] * 6
     k = draw(st.sampled_from(kinds))
@@ -102,11 +102,14 @@ def operation(draw, where):
         return ["inject_mod", draw(st.sampled_from(["src.len", "src.cnt", "src.flag", "src.cmp", "src.name"])),
                 draw(st.sampled_from([None] + LEN))]
     if k == "import_children":
-        return ["import_children", draw(st.sampled_from(["src", "src.sub"]))]
+        return ["import_children", draw(st.sampled_from(["src", "src.sub", "src.par"]))]
     if k == "import_single":
         return ["import_single", draw(st.sampled_from(KEYS))]
     if k == "import_host":
         return ["import_host", draw(st.integers(0, 6))]     # the i-th host defined so far (modulo), created by an injection
+    if k == "import_mod_ref":
+        # import a node, modify the imported copy, then reference the copy: the reference sees the modified value
+        return ["import_mod_ref", draw(st.sampled_from(["src.cnt", "src.len", "src.par"])), draw(st.integers(-9, 99))]
     if k == "import_over":
         # the importing group already holds a node of that name (another unit): the import acts as a modification
         return ["import_over", draw(st.sampled_from(["src.len", "src.late", "src.cnt", "src.ref"])), draw(st.sampled_from(LEN))]
@@ -118,7 +121,8 @@ def ref_case(draw):
     where = draw(st.sampled_from(["local", "local", "remote", "base"]))
     ops = draw(st.lists(operation(where), min_size=1, max_size=7))
     probe = draw(st.sampled_from([None] * 5 + ["inject_none", "inject_several", "import_none", "import_none_single",
-                                               "imported_constraint", "option_added_to_copy", "option_leak"]))
+                                               "imported_constraint", "option_added_to_copy", "option_leak",
+                                               "option_by_ref", "option_by_ref_reject", "unit_by_ref"]))
     return {"where": where, "tree": draw(source_tree()), "ops": ops, "probe": probe}
 
 
@@ -157,6 +161,8 @@ def source_text(t):
     elif t["deep_con"] == "options":
         L += ["      = 1", "      = 2", "      = 3"]
     # neighbours whose names merely start with a queried path: a wildcard must not pick them up
+    # a node that has a value AND a child: a plain path selects the node alone
+    L += ["  par int = 4", "    kid int = 5"]
     L += ["  subx", "    other int = 5", "srcx", "  top int = 6"]
     late = t.get("late", [40.0, "cm"])
     L += [f"src.late = {lit(late[0])} {late[1]}"]
@@ -199,6 +205,8 @@ class Model:
         self.add("src.mat", "float[2,3]", None, [list(r) for r in MAT])
         self.add("src.words", "str[3]", None, list(WORDLIST))
         self.add("src.sub.deep", "int", None, t["deep"], t["deep_con"])
+        self.add("src.par", "int", None, 4)
+        self.add("src.par.kid", "int", None, 5)
         self.add("src.subx.other", "int", None, 5)
         self.add("srcx.top", "int", None, 6)
 
@@ -219,7 +227,7 @@ def build(case):
     src_model = Model(tree)          # what references resolve against (remote: frozen file content)
     L = []
     info = {"after_mod": False, "unit_change": False, "slice": False, "import_con": False, "import_of_sliced_host": False,
-            "import_over_existing": False}
+            "import_over_existing": False, "reference_to_modified_import": False}
     pre = "s" if where == "remote" else ""
     modified = set()
     hosts = {}                        # kind -> host path (for inject_mod)
@@ -290,6 +298,20 @@ def build(case):
                 info["after_mod"] = True
             if unit and unit != h["unit"]:
                 info["unit_change"] = True
+        elif k == "import_mod_ref":
+            _k, key, newv = op
+            sn = resolve.nodes[key]
+            g = f"imr{next(n)}"
+            leaf = key.split(".")[-1]
+            newv = float(newv) if sn["type"] == "float" else newv
+            L.append(f"{g} " + "{" + pre + "?" + key + "}")
+            L.append(f"{g}.{leaf} = {lit(newv)}" + (f" {sn['unit']}" if sn["unit"] else ""))
+            hp = f"h{next(n)}"
+            L.append(f"{hp} {sn['type']} = {{?{g}.{leaf}}}")
+            final.add(f"{g}.{leaf}", sn["type"], sn["unit"], newv)
+            final.add(hp, sn["type"], sn["unit"], newv)
+            info["after_mod"] = True
+            info["reference_to_modified_import"] = True
         elif k == "import_over":
             _k, key, hunit = op
             sn = resolve.nodes[key]
@@ -357,6 +379,19 @@ def build(case):
             info["import_con"] = True
         else:
             probe = None
+    elif probe in ("option_by_ref", "option_by_ref_reject"):
+        # an option given by reference adopts the referenced node's unit
+        L += ["olim float = 2 m", f"osize float = {'200' if probe == 'option_by_ref' else '2'} cm", "  = {?olim}", "  = 1 cm"]
+        if probe == "option_by_ref":
+            final.add("olim", "float", "m", 2.0)
+            final.add("osize", "float", "cm", 200.0)
+        else:
+            expects_raise = True
+    elif probe == "unit_by_ref":
+        # the documented '$unit name = {?node}': the unit is the node's value with its unit
+        L += ["stick float = 50 cm", "$unit stick = {?stick}", "ux float = 2 [stick]", "ux = 3 m"]
+        final.add("stick", "float", "cm", 50.0)
+        final.add("ux", "float", "[stick]", 6.0)
     elif probe in ("option_added_to_copy", "option_leak"):
         if tree["deep_con"] == "options":
             # a further option on the imported copy widens the copy only
